@@ -291,7 +291,7 @@ class timemodel(_coreiterative):
             mindtloc = min(dtloc) # mindtloc = dtloc
             Qnn = self.Qn.copy()
             if isave < nsave: # specific step to save result and go back to Qn
-                if self.Qn.time+mindtloc >= tsave[isave]:
+                while (isave < nsave) and (self.Qn.time+mindtloc >= tsave[isave]): # every time to save within this step
                     # compute smaller step with same integrator
                     self.step(Qnn, tsave[isave]-self.Qn.time)
                     Qnn.it = self._itstart + self._nit
